@@ -368,8 +368,8 @@ def proof_phase(run, tier, workdir):
         raise vlib.Infra("Cache.tla does not refine CacheProof: %s" % r.violated)
 
 
-def run_check(prop, tier, replay=None):
-    run = vlib.Run(prop, tier, "model_checking")
+def run_check(prop, tier, replay=None, label=None):
+    run = vlib.Run(label or prop, tier, "model_checking")
     run.write_evidence = replay is None
     rng = random.Random(run.seed * 7919 + int(prop[1:]))
     workdir = vlib.scratch_dir(prop)
